@@ -67,6 +67,9 @@ def instances(tier, seed):
         # repeated conditions: all concrete conditions identical, the symbolic one may coincide with them
         if k > 1:
             out.append({'shape': s, 'sym': (seed + 2) % k, 'vlen': 1, 'wide': None, 'same': True})
+        # every intermediate filter is used once (rendered by reference as an argument) and cloned before it is transformed
+        # further: what a filter renders to depends on the expression only, not on what was done with the value before
+        out.append({'shape': s, 'sym': (seed + 1) % k, 'vlen': 1, 'wide': None, 'pre': True})
     return out
 
 def bounds(tier):
@@ -95,6 +98,7 @@ def run_instance(payload):
         shape = tuplify(shape)
     known = known_keys(PROP)
     symleaf = payload['sym']; vlen = payload['vlen']; wide = payload['wide']
+    PRE[0] = bool(payload.get('pre'))
 
     def harness(I):
         counter = [0]
@@ -149,7 +153,16 @@ def run_instance(payload):
             op = OPS[(k + 2) % 5]
             f = I.call_repo('mpd_client::filter::Filter::new::<String>', [tag_value(P, nm), Adt('Operator', op, OPS.index(op), []), StrBuf(val)])
             return f, ('tag', list(TAGNAMES[nm]), op, val)
+        def used(fm):
+            f, m = fm
+            if not payload.get('pre'):
+                return fm
+            cmd0 = I.call_repo('mpd_protocol::Command::new', [str_ref(b'x')])
+            I.call_repo('mpd_protocol::Command::argument::<&Filter>', [cmd0, ref_to(f)])
+            return I.call_repo('<mpd_client::filter::Filter as Clone>::clone', [ref_to(f)]), m
         def build(s, flip):
+            return used(build_(s, flip))
+        def build_(s, flip):
             if s == 'L':
                 return leaf()
             if s[0] == 'not':
@@ -202,24 +215,31 @@ def run_instance(payload):
 def tuplify(x):
     return tuple(tuplify(y) for y in x) if isinstance(x, list) else x
 
+PRE = [False]
 def program_of(m, mirror):
+    p = program_of_(m, mirror)
+    return (['pre'] + p) if PRE[0] else p
+
+def program_of_(m, mirror):
     """postfix program for the native executor from the mirror tree under model m"""
     if mirror[0] == 'tag':
         name = model_bytes(m, mirror[1])
         spec = {v: k for k, v in TAGNAMES.items()}.get(name, 'other:' + hexs(name))
         return ['leaf', spec, mirror[2], hexs(model_bytes(m, mirror[3]))]
     if mirror[0] == 'not':
-        return program_of(m, mirror[1]) + ['not']
-    prog = program_of(m, mirror[1][0])
+        return program_of_(m, mirror[1]) + ['not']
+    prog = program_of_(m, mirror[1][0])
     for x in mirror[1][1:]:
-        prog += program_of(m, x) + ['and']
+        prog += program_of_(m, x) + ['and']
     return prog
 
 def mirror_of_program(prog):
     st = []
     i = 0
     while i < len(prog):
-        if prog[i] == 'leaf':
+        if prog[i] == 'pre':
+            i += 1
+        elif prog[i] == 'leaf':
             spec = prog[i + 1]
             name = list(TAGNAMES[spec]) if spec in TAGNAMES else list(unhex(spec[6:]))
             st.append(('tag', name, prog[i + 2], list(unhex(prog[i + 3])))); i += 4
